@@ -20,6 +20,12 @@ def rand_value(rng, allow_none=True, short=False):
     return "".join(rng.choice(SPECIALS) if rng.random() < .45 else rng.choice(WORDS) for _ in range(n))
 
 
+def rand_multi(rng):
+    """value for ATTACKS / DISPLAYBPM: dense in the characters that matter for the component split and the escaping"""
+    n = rng.randrange(1, 8)
+    return "".join(rng.choice([":", ":", "\\", "\\:", ";", "//", "/", "a", "60", "TIME=1.0", "\n", " ", "=", "*"]) for _ in range(n))
+
+
 def rand_field(rng):
     """chart field: equal to its own strip()"""
     for _ in range(20):
@@ -97,9 +103,11 @@ def edit_sm(rng, sf, steps):
                          "editchart", "editchart", "extradata", "insertchart"])
         try:
             if op == "setkey":
-                k = rng.choice(SM_KEYS); v = rand_value(rng); sf[k] = v; log.append(["setkey", k, v])
+                k = rng.choice(SM_KEYS); v = rand_multi(rng) if k in ("ATTACKS", "DISPLAYBPM") and rng.random() < .7 else rand_value(rng)
+                sf[k] = v; log.append(["setkey", k, v])
             elif op == "setattr":
-                a = rng.choice(attrs); v = rand_value(rng, allow_none=False); setattr(sf, a, v); log.append(["setattr", a, v])
+                a = rng.choice(attrs); v = rand_multi(rng) if a in ("attacks", "displaybpm") and rng.random() < .7 else rand_value(rng, allow_none=False)
+                setattr(sf, a, v); log.append(["setattr", a, v])
             elif op == "delkey":
                 ks = list(sf.keys())
                 if ks:
@@ -159,7 +167,8 @@ def edit_ssc(rng, sf, steps):
                          "editchart", "chartdel", "shared", "notespos"])
         try:
             if op == "setkey":
-                k = rng.choice(SM_KEYS + ["ORIGIN", "JACKET", "COMBOS"]); v = rand_value(rng); sf[k] = v; log.append(["setkey", k, v])
+                k = rng.choice(SM_KEYS + ["ORIGIN", "JACKET", "COMBOS"]); v = rand_multi(rng) if k in ("ATTACKS", "DISPLAYBPM") and rng.random() < .7 else rand_value(rng)
+                sf[k] = v; log.append(["setkey", k, v])
             elif op == "setattr":
                 a = rng.choice(attrs); v = rand_value(rng, allow_none=False); setattr(sf, a, v); log.append(["setattr", a, v])
             elif op == "delkey":
@@ -179,7 +188,7 @@ def edit_ssc(rng, sf, steps):
             elif op in ("editchart", "shared") and sf.charts:
                 c = rng.choice(sf.charts)
                 k = rng.choice(SSC_CHART_KEYS)
-                v = shared if op == "shared" else rand_value(rng)
+                v = shared if op == "shared" else (rand_multi(rng) if k in ("ATTACKS", "DISPLAYBPM") and rng.random() < .7 else rand_value(rng))
                 if rng.random() < .2 and k.lower() in ("chartname", "credit", "music", "bpms", "offset", "displaybpm", "attacks"):
                     setattr(c, k.lower(), v if v is not None else "")
                 else:
